@@ -20,6 +20,16 @@ Theorem C30_invalidate_order_irrelevant :
     forall c, in_map (g_map g1) c = in_map (g_map g2) c.
 Proof. exact invalidate_order_irrelevant. Qed.
 
+(* ... and that hypothesis is kept by every row invalidation (graph and relation state are unchanged by
+   a walk over row batches, invalidate_rows_frame), so it holds throughout a sequence of data edits
+   that starts from the empty map *)
+Theorem C30_invalidate_keeps_closed :
+  forall fuel g n l incl g',
+    owner_ok (g_edges g) -> closed_cells (g_edges g) (g_rel g) (g_map g) ->
+    invalidate_deps fuel g n (Rows l) incl = Some g' ->
+    closed_cells (g_edges g) (g_rel g) (g_map g').
+Proof. exact invalidate_keeps_closed. Qed.
+
 (* flush_sorted_canonical: the calc flush is independent of the insertion order of the tables ... *)
 Theorem C30_flush_sorted_canonical :
   forall s s' out,
